@@ -145,7 +145,7 @@ Lemma abs_bound_B (x : bf32) (n : nat) :
   (B2R x * IZR (Z.of_nat n) <= IZR (2 ^ 63))%R ->
   abs_bound (B2SF x) n = Z.to_N (Zfloor (rne32 (B2R x * IZR (Z.of_nat n)))).
 Proof.
-  intros Hf H0 Hn Hp. unfold abs_bound. f_equal.
+  intros Hf H0 Hn Hp. unfold abs_bound, abs_bound_z. f_equal.
   rewrite b32_of_Z_Bnat by lia. rewrite SFmul_equiv32.
   destruct (Bnat_correct (Z.of_nat n) ltac:(lia)) as [N1 N2].
   assert (Hprod : (0 <= B2R x * IZR (Z.of_nat n))%R).
@@ -194,7 +194,7 @@ Qed.
 Lemma abs_bound_nan_zero (f : spec_float) (n : nat) :
   (f = S754_nan \/ exists s, f = S754_zero s) -> abs_bound f n = 0%N.
 Proof.
-  intros [->|[s ->]]; unfold abs_bound; [reflexivity|].
+  intros [->|[s ->]]; unfold abs_bound, abs_bound_z; [reflexivity|].
   destruct (b32_of_Z (Z.of_nat n)) as [t|t| |t m e]; reflexivity.
 Qed.
 
@@ -221,7 +221,7 @@ Qed.
 (* ... and not beyond: 2^24 + 1 documents as f32 is 2^24, so the bound for max_df = 1.0 is one less than
    the number of documents (an n-gram present in every document then falls outside the window) *)
 Lemma abs_bound_one_beyond n : Z.of_nat n = 16777217%Z -> abs_bound f32_1 n = 16777216%N.
-Proof. intros H. unfold abs_bound. rewrite H. vm_compute. reflexivity. Qed.
+Proof. intros H. unfold abs_bound, abs_bound_z. rewrite H. vm_compute. reflexivity. Qed.
 
 (** * non-vacuity and the effect of the rounding *)
 Definition f32_0_7 : spec_float := S754_finite false 11744051 (-24).    (* 0.7f32 = 0x3f333333 *)
@@ -239,3 +239,4 @@ Proof. split; vm_compute; reflexivity. Qed.
 
 Example ex_third : abs_bound f32_third 3 = 1%N /\ abs_bound f32_third 6 = 2%N /\ abs_bound f32_third 2 = 0%N.
 Proof. repeat split; vm_compute; reflexivity. Qed.
+
